@@ -1811,3 +1811,8 @@ mut("C16", "renderer-doubles-backslashes", "R16-7|parsers::parser_line::tokens_t
 mut("C05", "calculator-abs-of-exponent", "R05-1|calculator::eval_int",
     "abs() on an i64 that can be i64::MIN",
     ("src/calculator/mod.rs", "Rule::power => lhs.wrapping_pow(rhs as u32),", "Rule::power => lhs.wrapping_pow(rhs.abs() as u32),"))
+
+mut("C04", "builtin-precheck-only-warns", "R04-4|builtins::utils::_get_std_fds|err-dropped",
+    "the dispatcher reports an unopenable target but runs the builtin anyway",
+    (C, """                println_stderr!("cicada: {}: {}", &item.2, e);
+                return Some(CommandResult::from_status(0, 1));""", """                println_stderr!("cicada: {}: {}", &item.2, e);"""))
